@@ -159,7 +159,7 @@ impl Exec {
                     if same {
                         self.model.set_weight(k, weight);
                         if !explicit { self.adopt_weight.insert(k); }
-                        if let Some(entry) = self.model.held.get_mut(&k) { entry.explicit_weight = explicit; }
+                        if let Some(entry) = self.model.held.get_mut(&k) { entry.explicit_weight = explicit; entry.explicit_weight_pending = explicit; }
                     }
                 }
             }
